@@ -56,68 +56,76 @@ def run_case(case):
             return Result(['rejected_nan_price'], nontrivial=True)
         raise Violation('NaN price was accepted: weights %r prices %r -> %r' % (weights, dh.q, out))
 
-    out = sizer(kit.T_OPEN, dict(weights))
-    if set(out.keys()) != set(weights.keys()):
-        raise Violation('target keys %s differ from weight keys %s' % (sorted(out), sorted(weights)))
-    f = kit.fee_rate(case['fee'])
-    L = F(lev)
-    gross_float = sum(np.abs(w) for w in weights.values())
-    gross = sum(abs(F(w)) for w in weights.values())
-    unscaled = bool(np.isclose(gross_float, 0.0))
-    cls = []
-    total = F(0)
-    frac_short = False
-    for a, w in weights.items():
-        qty = out[a]['quantity']
-        if isinstance(qty, bool) or not isinstance(qty, (int, np.integer)):
-            raise Violation('quantity for %s is %r (%s), not a whole number' % (a, qty, type(qty).__name__))
-        p = F(dh.q[a][1])
-        total += abs(qty) * p
-        if qty != 0 and (qty > 0) != (w > 0):
-            raise Violation('%s: quantity %d does not carry the sign of weight %r' % (a, qty, w))
-        if w == 0 and qty != 0:
-            raise Violation('%s: zero weight gave quantity %d' % (a, qty))
-        if gross == 0 or unscaled:
-            continue
-        alloc = E * L * F(w) / gross
-        after = alloc - f * abs(alloc)
-        mag = abs(after)
-        slack = REL * (mag + p)
-        if abs(qty) * p > mag + slack:
-            raise Violation('%s: |quantity| %d at %r costs %r > allocation after fees %r (E=%r L=%r w=%r/%r f=%r)' % (
-                a, abs(qty), float(p), float(abs(qty) * p), float(mag), float(E), lev, w, float(gross), float(f)))
-        if (abs(qty) + 1) * p <= mag - 1 - slack:
-            raise Violation('%s: |quantity| %d is not the largest affordable within one currency unit: one more '
-                            'at %r still fits %r (E=%r L=%r w=%r/%r f=%r)' % (
-                                a, abs(qty), float(p), float(mag), float(E), lev, w, float(gross), float(f)))
-        if w < 0 and (mag / p) != int(mag / p):
-            frac_short = True
-    bound = L * E * (1 + f)
-    if gross != 0 and total > bound * (1 + REL):
-        raise Violation('gross target %r exceeds L*E*(1+f) = %r' % (float(total), float(bound)))
-    if gross == 0 and total != 0:
-        raise Violation('all-zero weights gave a non-zero target')
-    signs = set((w > 0) - (w < 0) for w in weights.values())
-    cls.append('all_zero' if gross == 0 else ('near_zero_gross' if unscaled else 'scaled'))
-    cls.append('n_assets_%d' % len(weights))
-    if 1 in signs and -1 in signs:
-        cls.append('both_signs')
-    elif -1 in signs:
-        cls.append('short_only')
-    if case.get('hold'):
-        cls.append('equity_with_positions')
-    if case['leverage'] == 'default':
-        cls.append('default_leverage')
-    if f > 0:
-        cls.append('fee_positive')
-    if any(abs(out[a]['quantity']) == 1 for a in out):
-        cls.append('quantity_exactly_1')
-    if any(out[a]['quantity'] < 0 for a in out):
-        cls.append('short_target')
-    if not unscaled and gross != 0 and any(
-            abs(E * L * F(w) / gross) < 1 and dh.q[a][1] < 1 for a, w in weights.items() if w != 0):
-        cls.append('sub_unit_allocation_sub_unit_price')
-    nt = (1 in signs and -1 in signs) and f > 0 and frac_short
+    all_cls, any_nt = [], False
+    vectors = [weights] + [dict(w) for w in case.get('more_weights', [])]
+    for call_no, weights in enumerate(vectors):
+        out = sizer(kit.T_OPEN, dict(weights))
+        if set(out.keys()) != set(weights.keys()):
+            raise Violation('target keys %s differ from weight keys %s' % (sorted(out), sorted(weights)))
+        f = kit.fee_rate(case['fee'])
+        L = F(lev)
+        gross_float = sum(np.abs(w) for w in weights.values())
+        gross = sum(abs(F(w)) for w in weights.values())
+        unscaled = bool(np.isclose(gross_float, 0.0))
+        cls = []
+        total = F(0)
+        frac_short = False
+        for a, w in weights.items():
+            qty = out[a]['quantity']
+            if isinstance(qty, bool) or not isinstance(qty, (int, np.integer)):
+                raise Violation('quantity for %s is %r (%s), not a whole number' % (a, qty, type(qty).__name__))
+            p = F(dh.q[a][1])
+            total += abs(qty) * p
+            if qty != 0 and (qty > 0) != (w > 0):
+                raise Violation('%s: quantity %d does not carry the sign of weight %r' % (a, qty, w))
+            if w == 0 and qty != 0:
+                raise Violation('%s: zero weight gave quantity %d' % (a, qty))
+            if gross == 0 or unscaled:
+                continue
+            alloc = E * L * F(w) / gross
+            after = alloc - f * abs(alloc)
+            mag = abs(after)
+            slack = REL * (mag + p)
+            if abs(qty) * p > mag + slack:
+                raise Violation('%s: |quantity| %d at %r costs %r > allocation after fees %r (E=%r L=%r w=%r/%r f=%r)' % (
+                    a, abs(qty), float(p), float(abs(qty) * p), float(mag), float(E), lev, w, float(gross), float(f)))
+            if (abs(qty) + 1) * p <= mag - 1 - slack:
+                raise Violation('%s: |quantity| %d is not the largest affordable within one currency unit: one more '
+                                'at %r still fits %r (E=%r L=%r w=%r/%r f=%r)' % (
+                                    a, abs(qty), float(p), float(mag), float(E), lev, w, float(gross), float(f)))
+            if w < 0 and (mag / p) != int(mag / p):
+                frac_short = True
+        bound = L * E * (1 + f)
+        if gross != 0 and total > bound * (1 + REL):
+            raise Violation('gross target %r exceeds L*E*(1+f) = %r' % (float(total), float(bound)))
+        if gross == 0 and total != 0:
+            raise Violation('all-zero weights gave a non-zero target')
+        signs = set((w > 0) - (w < 0) for w in weights.values())
+        cls.append('all_zero' if gross == 0 else ('near_zero_gross' if unscaled else 'scaled'))
+        cls.append('n_assets_%d' % len(weights))
+        if 1 in signs and -1 in signs:
+            cls.append('both_signs')
+        elif -1 in signs:
+            cls.append('short_only')
+        if case.get('hold'):
+            cls.append('equity_with_positions')
+        if case['leverage'] == 'default':
+            cls.append('default_leverage')
+        if f > 0:
+            cls.append('fee_positive')
+        if any(abs(out[a]['quantity']) == 1 for a in out):
+            cls.append('quantity_exactly_1')
+        if any(out[a]['quantity'] < 0 for a in out):
+            cls.append('short_target')
+        if not unscaled and gross != 0 and any(
+                abs(E * L * F(w) / gross) < 1 and dh.q[a][1] < 1 for a, w in weights.items() if w != 0):
+            cls.append('sub_unit_allocation_sub_unit_price')
+        nt = (1 in signs and -1 in signs) and f > 0 and frac_short
+        all_cls += cls
+        any_nt = any_nt or nt
+        if call_no:
+            all_cls.append('sizer_reused')
+    cls, nt = sorted(set(all_cls)), any_nt
     return Result(cls, nontrivial=nt)
 
 
@@ -160,6 +168,8 @@ def cases(draw):
         case['hold'] = [a, draw(st.sampled_from([0.1, 0.3, 0.5])), draw(st.sampled_from([0.5, 0.9, 1.0, 1.7]))]
         if a not in case['prices']:
             case['hold_price'] = draw(price)
+    if kind in ('mixed', 'ints') and draw(st.sampled_from([False, False, True])):
+        case['more_weights'] = [{a: _sweight(draw) for a in assets} for _ in range(draw(st.integers(1, 2)))]
     inv = draw(st.sampled_from([None] * 12 + ['leverage', 'nan_price']))
     if inv == 'leverage':
         case['leverage'] = draw(st.sampled_from([0.0, -0.0, -1e-9, -0.5, -1.0, -20.0]))
@@ -168,6 +178,7 @@ def cases(draw):
         case.pop('hold', None)
     if inv:
         case['invalid'] = inv
+        case.pop('more_weights', None)
     return case
 
 
